@@ -45,6 +45,11 @@ pub struct ReadPlan {
     pub truncate: Option<usize>,
     /// stream for Random chunk sizes
     pub chunk_seed: u64,
+    /// read-call indices at which the reader, before it answers, decodes a small document of its
+    /// own on the same thread (a reader that unwraps an envelope, a logging reader): whatever
+    /// per-thread state the decoder keeps while it waits for bytes must tolerate that
+    #[serde(default, skip_serializing_if = "Vec::is_empty")]
+    pub reenter: Vec<u64>,
 }
 
 impl ReadPlan {
@@ -82,6 +87,9 @@ pub fn kind_from_name(name: &str) -> ErrorKind {
 }
 
 /// Counters shared between the channel and the harness (the sink owns the `&mut` reader).
+/// what a re-entering reader does (set once by the binary: decodes a Zinc, a Hayson and a filter text)
+pub static REENTER: std::sync::OnceLock<fn()> = std::sync::OnceLock::new();
+
 #[derive(Default, Debug)]
 pub struct ChanStats {
     pub calls: Cell<u64>,
@@ -91,6 +99,7 @@ pub struct ChanStats {
     pub eof_reads: Cell<u64>,
     pub trunc_fired: Cell<u64>,
     pub short_ops: Cell<u64>,
+    pub reentered: Cell<u64>,
     /// calls made after the last fault fired (bounded-liveness accounting)
     pub calls_at_last_fault: Cell<u64>,
 }
@@ -160,6 +169,12 @@ impl Read for SimReader {
         }
         if buf.is_empty() {
             return Ok(0);
+        }
+        if self.plan.reenter.contains(&call) {
+            if let Some(f) = REENTER.get() {
+                self.stats.reentered.set(self.stats.reentered.get() + 1);
+                f();
+            }
         }
         // Interrupted bursts, keyed by read-call index
         if self.burst_left == 0 {
